@@ -54,16 +54,7 @@ theorem sqlResolveLocal_refines (rows : List DocRow) (t : Int) (allow : Bool) (d
     have := (sqlLatest_exact _ _ _ _ h).1
     by_cases ha : r.active <;> simp [rowState, ha, resolveLocal, this]
 
-/-! ### the stateful response cache (http/client/caching.go) -/
-
-/-- invariant of every reachable cache state -/
-structure RCache.Inv (c : RCache) : Prop where
-  listed : ∀ e ∈ c.list, e ∈ c.all
-  short : c.list.length ≤ 1
-  ids : ∀ e ∈ c.all, e.id < c.nextId
-  nodup : (c.all.map (·.id)).Nodup
-  acct : c.size = sumSizes c.all
-  cap : c.all = [] ∨ c.size < c.maxBytes
+/-! ### the stateful response cache (http/client/caching.go, as repaired by b991549) -/
 
 theorem eraseEntry_sub (h : CEntry) (l : List CEntry) : ∀ e ∈ eraseEntry h l, e ∈ l := by
   induction l with
@@ -127,171 +118,262 @@ theorem id_inj (l : List CEntry) (nd : (l.map (·.id)).Nodup) (a b : CEntry) (ha
     · exfalso; apply nd.1; rw [← h2, ← h]; exact List.mem_map_of_mem h1
     · exact ih nd.2 h1 h2
 
-structure PopRel (c c' : RCache) : Prop where
-  inv : c'.Inv
-  maxEq : c'.maxBytes = c.maxBytes
-  nextEq : c'.nextId = c.nextId
-  allSub : ∀ e ∈ c'.all, e ∈ c.all
-  keep : ∀ e ∈ c.all, e ∉ c.list → e ∈ c'.all
-  listSub : ∀ e ∈ c'.list, e ∈ c.list
-  sizeLe : c'.size ≤ c.size
 
-theorem pop_nil (c : RCache) (hl : c.list = []) : c.pop = c := by
-  unfold RCache.pop; rw [hl]
-
-theorem pop_cons (c : RCache) (h : CEntry) (t : List CEntry) (hl : c.list = h :: t) :
-    c.pop = { c with all := eraseEntry h c.all, size := c.size - (h.size : Int), list := t } := by
-  unfold RCache.pop; rw [hl]
-
-theorem pop_rel (c : RCache) (hi : c.Inv) : PopRel c c.pop := by
-  cases hl : c.list with
-  | nil =>
-    rw [pop_nil c hl]
-    exact ⟨hi, rfl, rfl, fun e he => he, fun e he _ => he, fun e he => he, Int.le_refl _⟩
-  | cons h t =>
-    rw [pop_cons c h t hl]
-    have hs := hi.short
-    rw [hl] at hs
-    have ht : t = [] := by cases t with | nil => rfl | cons a b => simp at hs
-    subst ht
-    have hm : h ∈ c.all := hi.listed h (by simp [hl])
-    obtain ⟨e1, e2, e3⟩ := eraseEntry_sum h c.all hm hi.nodup
-    refine ⟨⟨?_, ?_, ?_, e3, ?_, ?_⟩, rfl, rfl, ?_, ?_, ?_, ?_⟩
-    · intro e he; cases he
-    · simp
-    · intro e he; exact hi.ids e (eraseEntry_sub h c.all e he)
-    · show c.size - (h.size : Int) = sumSizes (eraseEntry h c.all)
-      rw [e1, hi.acct]
-    · right
-      show c.size - (h.size : Int) < c.maxBytes
-      rcases hi.cap with hc | hc
-      · rw [hc] at hm; cases hm
-      · omega
-    · intro e he; exact eraseEntry_sub h c.all e he
-    · intro e he hne
-      apply e2 e he
+theorem eraseEntry_ne (h : CEntry) (l : List CEntry) (hm : h ∈ l) (nd : (l.map (·.id)).Nodup) :
+    ∀ e ∈ eraseEntry h l, e.id ≠ h.id := by
+  induction l with
+  | nil => cases hm
+  | cons x xs ih =>
+    have nd0 := nd
+    simp only [List.map_cons, List.nodup_cons] at nd
+    intro e he
+    simp only [eraseEntry] at he
+    split at he
+    · rename_i hx
       intro hid
-      apply hne
-      have : e = h := id_inj c.all hi.nodup e h he hm hid
-      rw [this, hl]; simp
-    · intro e he; cases he
-    · show c.size - (h.size : Int) ≤ c.size
+      apply nd.1
+      rw [hx.2, ← hid]
+      exact List.mem_map_of_mem he
+    · rename_i hx
+      rcases List.mem_cons.mp he with h1 | h1
+      · intro hid
+        apply hx
+        have : x = h := id_inj (x :: xs) nd0 x h (by simp) hm (by rw [← h1]; exact hid)
+        simp [this]
+      · have hm' : h ∈ xs := by
+          rcases List.mem_cons.mp hm with h2 | h2
+          · exfalso; apply hx; simp [h2]
+          · exact h2
+        exact ih hm' nd.2 e h1
+
+/-- invariant on the three fields the loops touch (+ the id counter) -/
+structure InvT (l all : List CEntry) (size : Int) (next : Nat) : Prop where
+  same : ∀ e, e ∈ l ↔ e ∈ all
+  sorted : l.Pairwise (fun a b => a.exp ≤ b.exp)
+  ids : ∀ e ∈ all, e.id < next
+  nodupAll : (all.map (·.id)).Nodup
+  nodupList : (l.map (·.id)).Nodup
+  acct : size = sumSizes all
+  acctL : size = sumSizes l
+
+theorem InvT.pop {h : CEntry} {t all : List CEntry} {size : Int} {next : Nat} (hi : InvT (h :: t) all size next) :
+    InvT t (eraseEntry h all) (size - (h.size : Int)) next := by
+  have hm : h ∈ all := (hi.same h).mp (by simp)
+  obtain ⟨e1, e2, e3⟩ := eraseEntry_sum h all hm hi.nodupAll
+  have ndl := hi.nodupList
+  simp only [List.map_cons, List.nodup_cons] at ndl
+  refine ⟨?_, (List.pairwise_cons.mp hi.sorted).2, ?_, e3, ndl.2, ?_, ?_⟩
+  · intro e
+    constructor
+    · intro he
+      apply e2 e ((hi.same e).mp (List.mem_cons_of_mem _ he))
+      intro hid
+      apply ndl.1
+      rw [← hid]; exact List.mem_map_of_mem he
+    · intro he
+      have h1 := (hi.same e).mpr (eraseEntry_sub h all e he)
+      rcases List.mem_cons.mp h1 with h2 | h2
+      · exfalso; exact eraseEntry_ne h all hm hi.nodupAll e he (by rw [h2])
+      · exact h2
+  · intro e he; exact hi.ids e (eraseEntry_sub h all e he)
+  · rw [e1, hi.acct]
+  · have := hi.acctL
+    simp only [sumSizes, List.map_cons, List.sum_cons] at this ⊢
+    omega
+
+theorem sumSizes_nonneg (l : List CEntry) : 0 ≤ sumSizes l := by
+  induction l with
+  | nil => simp [sumSizes]
+  | cons x xs ih => simp only [sumSizes, List.map_cons, List.sum_cons] at ih ⊢; omega
+
+/-- what a `popWhile` loop guarantees -/
+structure PopW (p : CEntry → Int → Bool) (l all : List CEntry) (size : Int) (next : Nat) (r : List CEntry × List CEntry × Int) : Prop where
+  inv : InvT r.1 r.2.1 r.2.2 next
+  listSub : ∀ e ∈ r.1, e ∈ l
+  allSub : ∀ e ∈ r.2.1, e ∈ all
+  sizeLe : r.2.2 ≤ size
+  stop : r.1 = [] ∨ ∃ h t, r.1 = h :: t ∧ p h r.2.2 = false
+
+theorem popWhile_spec (p : CEntry → Int → Bool) (l all : List CEntry) (size : Int) (next : Nat) (hi : InvT l all size next) :
+    PopW p l all size next (popWhile p l all size) := by
+  induction l generalizing all size with
+  | nil => exact ⟨hi, fun _ he => he, fun _ he => he, Int.le_refl _, Or.inl rfl⟩
+  | cons h t ih =>
+    unfold popWhile
+    by_cases hp : p h size = true
+    · simp only [hp, if_true]
+      have r := ih _ _ hi.pop
+      refine ⟨r.inv, fun e he => List.mem_cons_of_mem _ (r.listSub e he), fun e he => eraseEntry_sub h all e (r.allSub e he), ?_, r.stop⟩
+      have := r.sizeLe
       omega
+    · simp only [hp]
+      exact ⟨hi, fun _ he => he, fun _ he => he, Int.le_refl _, Or.inr ⟨h, t, rfl, by simpa using hp⟩⟩
 
-theorem PopRel.refl (c : RCache) (hi : c.Inv) : PopRel c c :=
-  ⟨hi, rfl, rfl, fun _ he => he, fun _ he _ => he, fun _ he => he, Int.le_refl _⟩
-
-theorem PopRel.trans {a b c : RCache} (h1 : PopRel a b) (h2 : PopRel b c) : PopRel a c :=
-  ⟨h2.inv, h2.maxEq.trans h1.maxEq, h2.nextEq.trans h1.nextEq, fun e he => h1.allSub e (h2.allSub e he),
-   fun e he hn => h2.keep e (h1.keep e he hn) (fun hl => hn (h1.listSub e hl)),
-   fun e he => h1.listSub e (h2.listSub e he), Int.le_trans h2.sizeLe h1.sizeLe⟩
-
-theorem removeExpiredN_rel (now : Int) (n : Nat) (c : RCache) (hi : c.Inv) : PopRel c (removeExpiredN now n c) := by
-  induction n generalizing c with
-  | zero => exact PopRel.refl c hi
-  | succ n ih =>
-    unfold removeExpiredN
+theorem linkAfter_perm (e : CEntry) (l : List CEntry) : (linkAfter e l).Perm (e :: l) := by
+  induction l with
+  | nil => exact List.Perm.refl _
+  | cons x xs ih =>
+    unfold linkAfter
     split
-    · exact PopRel.refl c hi
-    · split
-      · exact PopRel.trans (pop_rel c hi) (ih c.pop (pop_rel c hi).inv)
-      · exact PopRel.refl c hi
+    · exact (List.Perm.cons x ih).trans (List.Perm.swap e x xs)
+    · exact List.Perm.refl _
 
-theorem makeRoomN_rel (need : Int) (n : Nat) (c c' : RCache) (hi : c.Inv) (h : makeRoomN need n c = .ok c') :
-    PopRel c c' ∧ c'.size + need < c'.maxBytes := by
-  induction n generalizing c with
-  | zero =>
-    unfold makeRoomN at h
-    split at h
-    · cases h
-    · cases h; exact ⟨PopRel.refl _ hi, by omega⟩
-  | succ n ih =>
-    unfold makeRoomN at h
-    split at h
-    · split at h
-      · cases h
-      · obtain ⟨r, hlt⟩ := ih c.pop (pop_rel c hi).inv h
-        exact ⟨PopRel.trans (pop_rel c hi) r, hlt⟩
-    · cases h; exact ⟨PopRel.refl _ hi, by omega⟩
-
-theorem linkIn_short (e : CEntry) (l : List CEntry) (h : l.length ≤ 1) : linkIn e l = [e] := by
+theorem linkIn_perm (e : CEntry) (l : List CEntry) : (linkIn e l).Perm (e :: l) := by
   cases l with
+  | nil => exact List.Perm.refl _
+  | cons h t =>
+    simp only [linkIn]
+    split
+    · exact List.Perm.refl _
+    · exact (List.Perm.cons h (linkAfter_perm e t)).trans (List.Perm.swap e h t)
+
+theorem linkAfter_sorted (e : CEntry) (l : List CEntry) (hs : l.Pairwise (fun a b => a.exp ≤ b.exp)) :
+    (linkAfter e l).Pairwise (fun a b => a.exp ≤ b.exp) := by
+  induction l with
+  | nil => simp [linkAfter]
+  | cons x xs ih =>
+    have hx := List.pairwise_cons.mp hs
+    unfold linkAfter
+    split
+    · rename_i hlt
+      refine List.pairwise_cons.mpr ⟨?_, ih hx.2⟩
+      intro y hy
+      rcases List.mem_cons.mp ((linkAfter_perm e xs).mem_iff.mp hy) with h1 | h1
+      · rw [h1]; omega
+      · exact hx.1 y h1
+    · rename_i hge
+      refine List.pairwise_cons.mpr ⟨?_, hs⟩
+      intro y hy
+      rcases List.mem_cons.mp hy with h1 | h1
+      · rw [h1]; omega
+      · have := hx.1 y h1; omega
+
+theorem linkIn_sorted (e : CEntry) (l : List CEntry) (hs : l.Pairwise (fun a b => a.exp ≤ b.exp)) :
+    (linkIn e l).Pairwise (fun a b => a.exp ≤ b.exp) := by
+  cases l with
+  | nil => simp [linkIn]
+  | cons h t =>
+    have hx := List.pairwise_cons.mp hs
+    simp only [linkIn]
+    split
+    · rename_i hlt
+      refine List.pairwise_cons.mpr ⟨?_, hs⟩
+      intro y hy
+      rcases List.mem_cons.mp hy with h1 | h1
+      · rw [h1]; omega
+      · have := hx.1 y h1; omega
+    · rename_i hge
+      refine List.pairwise_cons.mpr ⟨?_, linkAfter_sorted e t hx.2⟩
+      intro y hy
+      rcases List.mem_cons.mp ((linkAfter_perm e t).mem_iff.mp hy) with h1 | h1
+      · rw [h1]; omega
+      · exact hx.1 y h1
+
+theorem sumSizes_perm {a b : List CEntry} (h : a.Perm b) : sumSizes a = sumSizes b := by
+  induction h with
   | nil => rfl
-  | cons x xs =>
-    cases xs with
-    | nil => simp [linkIn]
-    | cons y ys => simp at h
-
-/-- entries that are in the index but not in the expiry list are kept, unlisted, by a transition -/
-def Keeps (c c' : RCache) : Prop := ∀ e ∈ c.all, e ∉ c.list → e ∈ c'.all ∧ e ∉ c'.list
-
-theorem PopRel.keeps {c c' : RCache} (h : PopRel c c') : Keeps c c' :=
-  fun e he hn => ⟨h.keep e he hn, fun hl => hn (h.listSub e hl)⟩
+  | cons x _ ih => simp only [sumSizes, List.map_cons, List.sum_cons] at ih ⊢; omega
+  | swap x y l => simp only [sumSizes, List.map_cons, List.sum_cons]; omega
+  | trans _ _ ih1 ih2 => exact ih1.trans ih2
 
 theorem sumSizes_append (a b : List CEntry) : sumSizes (a ++ b) = sumSizes a + sumSizes b := by
   simp [sumSizes, List.sum_append]
 
-theorem insert_inv (c c2 : RCache) (hi : c.Inv) (key method query : Bytes) (size : Nat) (exp : Int)
-    (h : c.insert key method query size exp = .ok c2) : c2.Inv ∧ c2.maxBytes = c.maxBytes ∧ Keeps c c2 ∧
-      (∀ e ∈ c.list, e ∈ c.all → ((size : Int) ≤ c.maxBytes) → e ∈ c2.all → e ∉ c2.list) := by
-  unfold RCache.insert at h
-  simp only at h
-  split at h
-  · cases h
-    refine ⟨⟨hi.listed, hi.short, fun e he => Nat.lt_succ_of_lt (hi.ids e he), hi.nodup, hi.acct, hi.cap⟩, rfl, fun e he hn => ⟨he, hn⟩, ?_⟩
-    intro e _ _ hle; omega
-  · rename_i hsz
-    split at h
-    · rename_i c1 hmr
-      cases h
-      have hi0 : ({ c with nextId := c.nextId + 1 } : RCache).Inv :=
-        ⟨hi.listed, hi.short, fun e he => Nat.lt_succ_of_lt (hi.ids e he), hi.nodup, hi.acct, hi.cap⟩
-      obtain ⟨r, hlt⟩ := makeRoomN_rel _ _ _ _ hi0 hmr
-      have hl1 := linkIn_short { id := c.nextId, key := key, method := method, query := query, size := size, exp := exp } c1.list r.inv.short
-      have hnext : c1.nextId = c.nextId + 1 := r.nextEq
-      refine ⟨⟨?_, ?_, ?_, ?_, ?_, ?_⟩, r.maxEq, ?_, ?_⟩
-      · intro e he
-        simp only [hl1, List.mem_singleton] at he
-        simp [he]
-      · simp only [hl1]; simp
-      · intro e he
-        simp only [List.mem_append, List.mem_singleton] at he
-        rcases he with h1 | h1
-        · exact r.inv.ids e h1
-        · rw [h1, hnext]; simp
-      · simp only [List.map_append, List.map_cons, List.map_nil]
-        rw [List.nodup_append]
-        refine ⟨r.inv.nodup, by simp, ?_⟩
-        intro a ha b hb
-        simp only [List.mem_singleton] at hb
-        obtain ⟨y, hy, hyid⟩ := List.mem_map.mp ha
-        have := hi.ids y (r.allSub y hy)
-        omega
-      · show c1.size + (size : Int) = sumSizes (c1.all ++ [_])
-        rw [sumSizes_append, r.inv.acct]; simp [sumSizes]
-      · right
-        show c1.size + (size : Int) < c1.maxBytes
-        exact hlt
-      · intro e he hn
-        obtain ⟨k1, k2⟩ := r.keeps e he hn
-        refine ⟨List.mem_append_left _ k1, ?_⟩
-        simp only [hl1, List.mem_singleton]
-        intro heq
-        have := hi.ids e he
-        rw [heq] at this
-        simp at this
-      · intro e he hea _ _
-        simp only [hl1, List.mem_singleton]
-        intro heq
-        have := hi.ids e hea
-        rw [heq] at this
-        simp at this
-    · cases h
-    · cases h
+/-- invariant of every reachable cache state -/
+structure RCache.Inv (c : RCache) : Prop where
+  t : InvT c.list c.all c.size c.nextId
+  cap : c.list = [] ∨ c.size ≤ c.maxBytes
 
-theorem get_rel (c : RCache) (hi : c.Inv) (now : Int) (k m q : Bytes) : PopRel c (c.get now k m q).1 := by
-  unfold RCache.get RCache.removeExpired
-  exact removeExpiredN_rel now _ c hi
+theorem popWhile_inv (c : RCache) (hi : c.Inv) (p : CEntry → Int → Bool) :
+    (c.popWhile p).Inv ∧ PopW p c.list c.all c.size c.nextId (popWhile p c.list c.all c.size) := by
+  have r := popWhile_spec p c.list c.all c.size c.nextId hi.t
+  refine ⟨⟨r.inv, ?_⟩, r⟩
+  show (popWhile p c.list c.all c.size).1 = [] ∨ (popWhile p c.list c.all c.size).2.2 ≤ c.maxBytes
+  rcases hi.cap with h | h
+  · left
+    cases hl : (popWhile p c.list c.all c.size).1 with
+    | nil => rfl
+    | cons x xs => have := r.listSub x (by rw [hl]; simp); rw [h] at this; cases this
+  · right; have := r.sizeLe; omega
+
+theorem pop_inv (c : RCache) (hi : c.Inv) : c.pop.Inv ∧ (∀ e ∈ c.pop.all, e ∈ c.all) := by
+  unfold RCache.pop
+  cases hl : c.list with
+  | nil => exact ⟨hi, fun _ he => he⟩
+  | cons h t =>
+    have ht := hi.t
+    rw [hl] at ht
+    refine ⟨⟨ht.pop, ?_⟩, fun e he => eraseEntry_sub h c.all e he⟩
+    show t = [] ∨ c.size - (h.size : Int) ≤ c.maxBytes
+    rcases hi.cap with hc | hc
+    · rw [hl] at hc; cases hc
+    · right; omega
+
+theorem insert_inv (c : RCache) (hi : c.Inv) (key method query : Bytes) (size : Nat) (exp : Int) :
+    (c.insert key method query size exp).Inv ∧ (c.insert key method query size exp).maxBytes = c.maxBytes := by
+  unfold RCache.insert
+  simp only
+  have hi0 : ({ c with nextId := c.nextId + 1 } : RCache).Inv :=
+    ⟨⟨hi.t.same, hi.t.sorted, fun e he => Nat.lt_succ_of_lt (hi.t.ids e he), hi.t.nodupAll, hi.t.nodupList, hi.t.acct, hi.t.acctL⟩, hi.cap⟩
+  split
+  · exact ⟨hi0, rfl⟩
+  · rename_i hsz
+    obtain ⟨i1, r⟩ := popWhile_inv { c with nextId := c.nextId + 1 } hi0 (fun _ sz => decide (sz + (size : Int) > c.maxBytes))
+    let e : CEntry := { id := c.nextId, key := key, method := method, query := query, size := size, exp := exp }
+    let c1 := ({ c with nextId := c.nextId + 1 } : RCache).makeRoom size
+    have hc1 : c1 = ({ c with nextId := c.nextId + 1 } : RCache).popWhile (fun _ sz => decide (sz + (size : Int) > c.maxBytes)) := rfl
+    have it : InvT c1.list c1.all c1.size (c.nextId + 1) := by rw [hc1]; exact i1.t
+    have hperm := linkIn_perm e c1.list
+    have hfresh : ∀ y ∈ c1.all, y.id < c.nextId := fun y hy => hi.t.ids y (by rw [hc1] at hy; exact r.allSub y hy)
+    refine ⟨⟨⟨?_, linkIn_sorted e c1.list it.sorted, ?_, ?_, ?_, ?_, ?_⟩, ?_⟩, rfl⟩
+    · intro x
+      show x ∈ linkIn e c1.list ↔ x ∈ c1.all ++ [e]
+      rw [hperm.mem_iff, List.mem_cons, List.mem_append, List.mem_singleton, it.same x]
+      constructor <;> (intro h; rcases h with h | h) <;> simp [h]
+    · intro x hx
+      show x.id < c.nextId + 1
+      rcases List.mem_append.mp hx with h | h
+      · exact Nat.lt_succ_of_lt (hfresh x h)
+      · simp only [List.mem_singleton] at h; rw [h]; exact Nat.lt_succ_self _
+    · show ((c1.all ++ [e]).map (·.id)).Nodup
+      simp only [List.map_append, List.map_cons, List.map_nil]
+      rw [List.nodup_append]
+      refine ⟨it.nodupAll, by simp, ?_⟩
+      intro a ha b hb
+      simp only [List.mem_singleton] at hb
+      obtain ⟨y, hy, hyid⟩ := List.mem_map.mp ha
+      have := hfresh y hy
+      show a ≠ b
+      rw [hb, ← hyid]
+      exact Nat.ne_of_lt this
+    · show ((linkIn e c1.list).map (·.id)).Nodup
+      rw [(hperm.map (·.id)).nodup_iff]
+      simp only [List.map_cons, List.nodup_cons]
+      refine ⟨?_, it.nodupList⟩
+      intro hc
+      obtain ⟨y, hy, hyid⟩ := List.mem_map.mp hc
+      have := hfresh y ((it.same y).mp hy)
+      have : y.id = c.nextId := hyid
+      omega
+    · show c1.size + (size : Int) = sumSizes (c1.all ++ [e])
+      rw [sumSizes_append, it.acct]; simp [sumSizes, e]
+    · show c1.size + (size : Int) = sumSizes (linkIn e c1.list)
+      rw [sumSizes_perm hperm, it.acctL]; simp only [sumSizes, List.map_cons, List.sum_cons]; simp [e]; omega
+    · right
+      show c1.size + (size : Int) ≤ c.maxBytes
+      have hstop := r.stop
+      have hsl : c1.size = sumSizes c1.list := it.acctL
+      rcases hstop with h0 | ⟨hh, tt, h1, h2⟩
+      · have : c1.list = [] := by rw [hc1]; exact h0
+        rw [this] at hsl
+        simp [sumSizes] at hsl
+        have hsz' : ¬ ((size : Int) > c.maxBytes) := hsz
+        omega
+      · have : ¬ (c1.size + (size : Int) > c.maxBytes) := by
+          have h2' : decide ((popWhile (fun _ sz => decide (sz + (size : Int) > c.maxBytes)) c.list c.all c.size).2.2 + (size : Int) > c.maxBytes) = false := h2
+          show ¬ ((popWhile (fun _ sz => decide (sz + (size : Int) > c.maxBytes)) c.list c.all c.size).2.2 + (size : Int) > c.maxBytes)
+          simpa using h2'
+        omega
 
 theorem get_hit (c : RCache) (now : Int) (k m q : Bytes) (e : CEntry) (h : (c.get now k m q).2 = some e) :
     e.key = k ∧ e.method = m ∧ e.query = q ∧ e ∈ (c.get now k m q).1.all := by
@@ -303,116 +385,79 @@ theorem get_hit (c : RCache) (now : Int) (k m q : Bytes) (e : CEntry) (h : (c.ge
   simp at h1 h3
   exact ⟨h3.2, h1.1, h1.2, h3.1⟩
 
-/-- a lookup for an entry of the index that matches itself always hits (whatever the time) -/
-theorem get_finds (c : RCache) (now : Int) (e : CEntry) (he : e ∈ (c.get now e.key e.method e.query).1.all) :
-    ∃ e', (c.get now e.key e.method e.query).2 = some e' := by
-  unfold RCache.get at he ⊢
-  simp only at he ⊢
-  cases hf : List.find? (fun x => decide (x.method = e.method ∧ x.query = e.query))
-      (List.filter (fun x => decide (x.key = e.key)) (c.removeExpired now).all) with
-  | some e' => exact ⟨e', rfl⟩
-  | none =>
-    exfalso
-    have := List.find?_eq_none.mp hf e (List.mem_filter.mpr ⟨he, by simp⟩)
-    simp at this
 
-theorem rtMiss_rel (c1 : RCache) (hi : c1.Inv) (now mc : Int) (k m q : Bytes) (i : Inner) :
-    (c1.rtMiss now mc k m q i).1.Inv ∧ (c1.rtMiss now mc k m q i).1.maxBytes = c1.maxBytes ∧ Keeps c1 (c1.rtMiss now mc k m q i).1 := by
-  have base : c1.Inv ∧ c1.maxBytes = c1.maxBytes ∧ Keeps c1 c1 := ⟨hi, rfl, fun e he hn => ⟨he, hn⟩⟩
-  unfold RCache.rtMiss
-  cases i with
-  | fail => exact base
-  | resp size cacheable =>
-    simp only
-    split
-    · exact base
-    · cases cacheable with
-      | none => exact base
-      | some t =>
-        simp only
-        split
-        · rename_i c2 hins
-          obtain ⟨i2, m2, k2, _⟩ := insert_inv c1 c2 hi _ _ _ _ _ hins
-          exact ⟨i2, m2, k2⟩
-        · exact base
+/-- after the prune of a lookup no entry of the cache has expired -/
+theorem removeExpired_fresh (c : RCache) (hi : c.Inv) (now : Int) : ∀ e ∈ (c.removeExpired now).all, ¬ e.exp < now := by
+  obtain ⟨i1, r⟩ := popWhile_inv c hi (fun h _ => decide (h.exp < now))
+  intro e he
+  have hl : e ∈ (c.removeExpired now).list := (i1.t.same e).mpr he
+  rcases r.stop with h0 | ⟨h, t, h1, h2⟩
+  · have : (c.removeExpired now).list = [] := h0
+    rw [this] at hl; cases hl
+  · have hlist : (c.removeExpired now).list = h :: t := h1
+    have hs : List.Pairwise (fun a b => a.exp ≤ b.exp) (c.removeExpired now).list := i1.t.sorted
+    rw [hlist] at hs hl
+    have hh : ¬ h.exp < now := by simpa using h2
+    rcases List.mem_cons.mp hl with h3 | h3
+    · rw [h3]; exact hh
+    · have := (List.pairwise_cons.mp hs).1 e h3; omega
 
-theorem roundTrip_rel (c : RCache) (hi : c.Inv) (now mc : Int) (k m q : Bytes) (i : Inner) :
-    (c.roundTrip now mc k m q i).1.Inv ∧ (c.roundTrip now mc k m q i).1.maxBytes = c.maxBytes ∧ Keeps c (c.roundTrip now mc k m q i).1 := by
+theorem get_inv (c : RCache) (hi : c.Inv) (now : Int) (k m q : Bytes) :
+    (c.get now k m q).1.Inv ∧ (c.get now k m q).1.maxBytes = c.maxBytes :=
+  ⟨(popWhile_inv c hi _).1, rfl⟩
+
+theorem roundTrip_inv (c : RCache) (hi : c.Inv) (now mc : Int) (k m q : Bytes) (i : Inner) :
+    (c.roundTrip now mc k m q i).1.Inv ∧ (c.roundTrip now mc k m q i).1.maxBytes = c.maxBytes := by
+  have miss : ∀ c1 : RCache, c1.Inv → (c1.rtMiss now mc k m q i).1.Inv ∧ (c1.rtMiss now mc k m q i).1.maxBytes = c1.maxBytes := by
+    intro c1 h1
+    unfold RCache.rtMiss
+    cases i with
+    | fail => exact ⟨h1, rfl⟩
+    | resp size cacheable =>
+      simp only
+      split
+      · exact ⟨h1, rfl⟩
+      · cases cacheable with
+        | none => exact ⟨h1, rfl⟩
+        | some t => exact insert_inv c1 h1 _ _ _ _ _
   unfold RCache.roundTrip
   split
-  · have hr := get_rel c hi now k m q
+  · have g := get_inv c hi now k m q
     split
     · rename_i c1 e heq
-      rw [heq] at hr
-      exact ⟨hr.inv, hr.maxEq, hr.keeps⟩
+      rw [heq] at g; exact g
     · rename_i c1 heq
-      rw [heq] at hr
-      obtain ⟨a, b, d⟩ := rtMiss_rel c1 hr.inv now mc k m q i
-      refine ⟨a, b.trans hr.maxEq, ?_⟩
-      intro e he hn
-      obtain ⟨x, y⟩ := hr.keeps e he hn
-      exact d e x y
-  · exact rtMiss_rel c hi now mc k m q i
-
-theorem Keeps.trans {a b c : RCache} (h1 : Keeps a b) (h2 : Keeps b c) : Keeps a c :=
-  fun e he hn => let ⟨x, y⟩ := h1 e he hn; h2 e x y
+      rw [heq] at g
+      obtain ⟨a, b⟩ := miss c1 g.1
+      exact ⟨a, b.trans g.2⟩
+  · exact miss c hi
 
 theorem new_inv (m : Int) : (RCache.new m).Inv := by
-  refine ⟨?_, ?_, ?_, ?_, ?_, Or.inl rfl⟩
-  · intro e he; cases he
-  · show ([] : List CEntry).length ≤ 1; simp
+  refine ⟨⟨?_, ?_, ?_, ?_, ?_, ?_, ?_⟩, Or.inl rfl⟩
+  · intro e; exact Iff.rfl
+  · exact List.Pairwise.nil
   · intro e he; cases he
   · show (([] : List CEntry).map (·.id)).Nodup; simp
+  · show (([] : List CEntry).map (·.id)).Nodup; simp
+  · show (0 : Int) = sumSizes []; simp [sumSizes]
   · show (0 : Int) = sumSizes []; simp [sumSizes]
 
-theorem step_inv (c c' : RCache) (hi : c.Inv) (o : COp) (h : c.step o = some c') :
-    c'.Inv ∧ c'.maxBytes = c.maxBytes ∧ Keeps c c' := by
+theorem step_inv (c : RCache) (hi : c.Inv) (o : COp) : (c.step o).Inv ∧ (c.step o).maxBytes = c.maxBytes := by
   cases o with
-  | get now k m q =>
-    simp only [RCache.step, Option.some.injEq] at h
-    subst h
-    have r := get_rel c hi now k m q
-    exact ⟨r.inv, r.maxEq, r.keeps⟩
-  | insert k m q sz t =>
-    simp only [RCache.step] at h
-    split at h
-    · rename_i c2 hins
-      cases h
-      obtain ⟨a, b, d, _⟩ := insert_inv c _ hi _ _ _ _ _ hins
-      exact ⟨a, b, d⟩
-    · cases h
+  | get now k m q => exact get_inv c hi now k m q
+  | insert k m q sz t => exact insert_inv c hi k m q sz t
   | pop =>
-    simp only [RCache.step, Option.some.injEq] at h
-    subst h
-    have r := pop_rel c hi
-    exact ⟨r.inv, r.maxEq, r.keeps⟩
-  | roundTrip now mc k m q i =>
-    simp only [RCache.step] at h
-    have r := roundTrip_rel c hi now mc k m q i
-    split at h
-    · cases h
-    · rename_i c2 o heq
-      cases h
-      rw [heq] at r
-      exact r
+    refine ⟨(pop_inv c hi).1, ?_⟩
+    show c.pop.maxBytes = c.maxBytes
+    unfold RCache.pop; split <;> rfl
+  | roundTrip now mc k m q i => exact roundTrip_inv c hi now mc k m q i
 
-theorem run_inv (ops : List COp) (c c' : RCache) (hi : c.Inv) (h : c.run ops = some c') :
-    c'.Inv ∧ c'.maxBytes = c.maxBytes ∧ Keeps c c' := by
+theorem run_inv (ops : List COp) (c : RCache) (hi : c.Inv) : (c.run ops).Inv ∧ (c.run ops).maxBytes = c.maxBytes := by
   induction ops generalizing c with
-  | nil =>
-    simp only [RCache.run, Option.some.injEq] at h
-    subst h
-    exact ⟨hi, rfl, fun e he hn => ⟨he, hn⟩⟩
+  | nil => exact ⟨hi, rfl⟩
   | cons o os ih =>
-    simp only [RCache.run] at h
-    split at h
-    · rename_i c1 hs
-      obtain ⟨a, b, d⟩ := step_inv c c1 hi o hs
-      obtain ⟨a2, b2, d2⟩ := ih c1 a h
-      exact ⟨a2, b2.trans b, d.trans d2⟩
-    · cases h
-
-theorem hang_exact_fit (n : Nat) (k m q : Bytes) (t : Int) : (RCache.new n).insert k m q n t = .err "hang" := by
-  simp [RCache.insert, RCache.new, makeRoomN]
+    obtain ⟨a, b⟩ := step_inv c hi o
+    obtain ⟨a2, b2⟩ := ih (c.step o) a
+    exact ⟨a2, b2.trans b⟩
 
 end Nuts.C18
